@@ -302,8 +302,8 @@ class Pool:
         elif name == 'sat':
             _, i, k = op
             wire = [25, i, k]
-            call = lambda: P[i].ansi_settings_at(k)
-            extra_of = lambda r: ('settings', [(id(s), str(s)) for s in r])
+            call = lambda: (P[i].ansi_settings_at(k), P[i].settings_at(k))
+            extra_of = lambda r: ('settings', [(id(s), str(s)) for s in r[0]], r[1])
         elif name == 'find':
             _, i, f, st, en, rev = op
             wire = [26, i, form_wire(f), optz(st), optz(en), rev]
